@@ -1427,6 +1427,19 @@ def inform_case(meta, cell):
                     parts.append(e)
         if ident_obs is not None:
             parts.append("%s_of_identity %s %s (Some %s)" % (chk, ctol(exact), mcoq, enc_mat(ident_obs)))
+        if form == "batch_par" and m.coq.startswith("(mat_model") and m.D.ident and m.R.ident:
+            # the REAL 2-d path of a matrix model between identity geometries (C07_matrix_batch_columnwise): the batch array handed to
+            # the model as it is (V2, row-major) against the 2-d array that came back
+            for dt in ("float64", "int64", "bool"):
+                o = obs.get(dt + "/C")
+                if o is None or not isinstance(o["val"], list):
+                    continue
+                cols_in = columns_of(DT_CLASS[dt])
+                flat_in = [cols_in[j][i] for i in range(n_in) for j in range(len(cols_in))]
+                n_out = len(o["val"][0]) if o["val"] else 0
+                flat_out = [o["val"][j][i] for i in range(n_out) for j in range(len(o["val"]))]
+                parts.append("%s_batch %s %s %s %s %s (Some (%s, %s, %s))" % (chk, ctol(exact), mcoq, cnat(n_in), cnat(len(cols_in)), enc_vec(flat_in),
+                                                                           cnat(n_out), cnat(len(o["val"])), enc_vec(flat_out)))
         expr = " && ".join(parts)
     cases = [Case(expr=expr, meta=dict(meta, observed={k: (o["dt"], o["wrap"]) for k, o in obs.items()}) if False else meta, cell=cell, kind="EXACT" if exact else "DECISION")]
     if detail:
